@@ -147,11 +147,11 @@ def h_expect(env, route, words, spec, n, init, complex_coefs=False, ident=False,
     env.check_eq(val, exp, f"get_expectation_value[{route}] == <psi|H|psi> for words {words}")
 
 
-def h_variance(env, words, spec, n, complex_coefs=False):
+def h_variance(env, words, spec, n, complex_coefs=False, ident=False):
     from tangelo.linq import Circuit
     gates, params = build_gates(env, spec)
     circ = Circuit(gates, n_qubits=n)
-    op, terms = make_op(env, words, complex_coefs)
+    op, terms = make_op(env, words, complex_coefs, ident=ident)
     try:
         b = _backend(env, "native")
         var = b.get_variance(op, circ)
@@ -161,6 +161,8 @@ def h_variance(env, words, spec, n, complex_coefs=False):
     st = oracle(spec, params, n, R.basis_state(n, 0))
     exp = R.C(0)
     for w, c in terms.items():
+        if not w:
+            continue                # a constant shifts the operator and contributes no variance
         e = R.expectation(st, n, {w: R.C(1)})
         exp = exp + c * R.n_conj(c) * (1 - e * e)
     env.check_eq(var, exp, "get_variance == sum |c_k|^2 (1 - <P_k>^2) of the exact distribution")
@@ -451,6 +453,7 @@ def shapes(tier, seed):
         for route in routes:
             out.append(Shape(f"expect/{route}/mixed/{nm}", h_expect, dict(route=route, words=w3, spec=PREPS[2], n=2, init=False, complex_coefs=flags),
                              modules=MODS))
+    out.append(Shape("variance/with-constant", h_variance, dict(words=[[(0, "X")], [(0, "Z"), (1, "Z")]], spec=PREPS[0], n=2, ident=True), modules=MODS))
     out.append(Shape("variance/1", h_variance, dict(words=[[(1, "Y")]], spec=PREPS[3], n=2), modules=MODS))
     for i, route in enumerate(routes):
         for outcome in (0, 1):
